@@ -2,6 +2,7 @@
 NOT_APPLICABLE_REASON = {}
 CORR = ("; the model is tied to /repo on every run by a sampled correspondence check (real code vs compiled Lean model on the same "
         "operation sequences) plus harness-side monitors that give a concrete failing input")
+SIMNOTE = 'trusted: Lean kernel, hand-written models M1/M4 tied by the sampled correspondence (0 disagreements on the unchanged tree), recorded solver solutions and hash-order picks as validated inputs, harness world (FIFO queues, task ends as inputs); the history-level statement is monitored on real traces, not proved'
 META = {
     "C13": {
         "text": "Lean 4 theorems over the job-layer model M4, by induction over ALL sequences of client requests and tako callbacks: "
@@ -12,5 +13,110 @@ META = {
         "note": "trusted: Lean kernel (axioms propext, Classical.choice, Quot.sound), the hand-written model M4, harness + hooks + driver; "
                 "not yet a theorem: completed-exactly-once and the submit+wait clause (listener registration after the journal-flush await)",
         "technique": "Lean 4 proof (inductive invariant over operation sequences) + differential correspondence check",
+    },
+    "C19": {
+        "text": "Lean 4 theorems over a byte-level model of the stream codec, writer and reader (M8): varint/header round-trip and "
+                "prefix-freeness, c19_readback (for every family of chunk sequences, every interleaving into any number of files in any "
+                "directory order: cat = bytes of the maximal instance in write order, finished iff end marker, earlier instances superseded), "
+                "c19_torn (every file cut at any byte offset behind the relevant end marker)" + CORR,
+        "design_ref": "DESIGN.md 7/C19",
+        "note": "trusted: Lean kernel, hand-written byte-level model of bincode varint + StreamChunkHeader (compared byte-exactly with every "
+                "file the real writer produced), tokio mpsc FIFO + BufWriter flush order, file-system prefix semantics under crash; hypothesis: "
+                "distinct instance ids per task across files (= C06)",
+        "technique": "Lean 4 proof (induction over chunk/file lists, byte-level codec lemmas) + differential correspondence check",
+    },
+    "C20": {
+        "text": "Lean 4 theorems over a symbolic (Dolev-Yao) model of the authentication handshake (M9) for an unbounded number of sessions "
+                "and adversary steps: c20_complete, c20_mismatch, c20_auth (injective agreement on role and this session's challenge), "
+                "c20_no_reflection, c20_role_chal_inj; the whole finite table (24768 rows: keys x roles x protocols x single-message "
+                "substitutions incl. reflection and cross-session replay) is enumerated against the real do_authentication" + CORR,
+        "design_ref": "DESIGN.md 7/C20",
+        "note": "trusted: Lean kernel, the symbolic model's premises (unforgeability of orion XChaCha20-Poly1305 sealing, unpredictability of "
+                "secure_rand_bytes), the hand-written model of auth.rs tied by the exhaustive table",
+        "technique": "Lean 4 proof (symbolic protocol model, invariant over unbounded traces) + exhaustive differential table",
+    },
+    "C01": {
+        "text": "Lean 4 theorems: a finish is accepted only for a started task, a terminal outcome is final in the job layer (every second terminal transition is refused), the core forgets a task in the step that reports its outcome and ignores every later message about it; OutcomeOnce over whole cluster runs (incl. 'finished only if a worker ran it successfully') is monitored on every real trace" + CORR,
+        "design_ref": 'DESIGN.md 7/C01',
+        "note": SIMNOTE,
+        "technique": "Lean 4 proof (step-level and job-layer theorems) + differential correspondence check on a simulated cluster + trace monitors",
+    },
+    "C02": {
+        "text": 'Lean 4 theorems: for every submit shape the ids attached to the job equal the ids handed to the scheduler (incl. auto ids); registry equality after every client request and the rest condition after a fault-free drain are monitored on every real trace' + CORR,
+        "design_ref": 'DESIGN.md 7/C02',
+        "note": SIMNOTE,
+        "technique": "Lean 4 proof (step-level and job-layer theorems) + differential correspondence check on a simulated cluster + trace monitors",
+    },
+    "C03": {
+        "text": 'Lean 4 theorem: a new task with unfinished dependencies enters no ready queue (all core states); no-early-start at every launch and propagation of failure/cancel to all transitive dependents are monitored on every real trace' + CORR,
+        "design_ref": 'DESIGN.md 7/C03',
+        "note": SIMNOTE,
+        "technique": "Lean 4 proof (step-level and job-layer theorems) + differential correspondence check on a simulated cluster + trace monitors",
+    },
+    "C05": {
+        "text": 'Lean 4 theorems: reservations are exact and non-saturating when the request fits, release restores every component (all vectors and requests); ResInv (free + reserved = total per worker), multi-node exclusivity and single-group placement are monitored on every core snapshot of every real trace' + CORR,
+        "design_ref": 'DESIGN.md 7/C05',
+        "note": SIMNOTE,
+        "technique": "Lean 4 proof (step-level and job-layer theorems) + differential correspondence check on a simulated cluster + trace monitors",
+    },
+    "C06": {
+        "text": 'Lean 4 theorem: a task retracted from a lost worker is re-sent with a larger instance id; single live execution, no launch after a confirmed give-back and strictly increasing instance ids in the launch log are monitored on every real trace' + CORR,
+        "design_ref": 'DESIGN.md 7/C06',
+        "note": SIMNOTE,
+        "technique": "Lean 4 proof (step-level and job-layer theorems) + differential correspondence check on a simulated cluster + trace monitors",
+    },
+    "C07": {
+        "text": 'Lean 4 theorems: the crash-limit decision table stated outright for every limit, loss reason and count (counter +1 exactly on failure losses, fail exactly at the limit, never-restart on any loss, unlimited never), job layer moves exactly Running->Waiting; the running list reported at every worker loss is monitored against the announced starts on every real trace' + CORR,
+        "design_ref": 'DESIGN.md 7/C07',
+        "note": SIMNOTE,
+        "technique": "Lean 4 proof (step-level and job-layer theorems) + differential correspondence check on a simulated cluster + trace monitors",
+    },
+    "C08": {
+        "text": 'Lean 4 theorems: after the cancel is answered every task of the job is terminal (all well-formed states), repeating the cancel changes nothing, other jobs are untouched, the core forgets a cancelled task in the same step; no report and no launch after the cancel are monitored on every real trace' + CORR,
+        "design_ref": 'DESIGN.md 7/C08',
+        "note": SIMNOTE,
+        "technique": "Lean 4 proof (step-level and job-layer theorems) + differential correspondence check on a simulated cluster + trace monitors",
+    },
+    "C09": {
+        "text": 'Lean 4 theorems: no client request (open/close/cancel/forget) makes the job layer panic in a well-formed / reachable state; every panic site of the modelled paths is an explicit outcome of the models and compared step by step; every panic of the real code is caught by the harness and reported with its source function' + CORR,
+        "design_ref": 'DESIGN.md 7/C09',
+        "note": SIMNOTE,
+        "technique": "Lean 4 proof (step-level and job-layer theorems) + differential correspondence check on a simulated cluster + trace monitors",
+    },
+    "C14": {
+        "text": 'Lean 4 theorems: process_task_failed hands the core the list of ALL non-terminal tasks iff the number of failed tasks exceeds the limit (otherwise nothing), and aborting that list leaves every task of the job terminal; no later start is monitored on every real trace' + CORR,
+        "design_ref": 'DESIGN.md 7/C14',
+        "note": SIMNOTE,
+        "technique": "Lean 4 proof (step-level and job-layer theorems) + differential correspondence check on a simulated cluster + trace monitors",
+    },
+    "C10": {
+        "text": 'Lean 4 theorems over the journal/restore model M5: c10_restore_refines (for every producible journal restore does not stop and jobs, open flags, outcomes, counters equal the spec; every pending task resubmitted once with remaining deps, next instance id and crash count - this covers the restart clauses of C03/C06/C07), c10_prefix / c10_every_crash_point (every record boundary), c10_torn_tail / c10_truncate_append (partial last record)' + CORR,
+        "design_ref": 'DESIGN.md 7/C10',
+        "note": 'trusted: Lean kernel, hand-written model of restore.rs/journal read+write tied by the correspondence on real journals written by the real JournalWriter (every record boundary; byte offsets in the thorough tier); bincode/serde encoding of Event assumed deterministic and prefix-free (swept, not proved); fsync/rename/set_len semantics',
+        "technique": 'Lean 4 proof (refinement of a short spec, induction over record lists) + differential correspondence check',
+    },
+    "C11": {
+        "text": 'Lean 4 theorems for EVERY journal (no producibility needed): c11_fresh (new job/worker/queue ids exceed every id of that kind in the journal, server uid preserved), c11_iterate (preserved across repeated restarts)' + CORR,
+        "design_ref": 'DESIGN.md 7/C11',
+        "note": 'trusted: Lean kernel, model of the counter seeding (restore.rs, bootstrap.rs, State::new_job_id, Core::new_worker_id, autoalloc queue ids) tied by the correspondence incl. the first ids the real code issues after restore',
+        "technique": 'Lean 4 proof (fold lemmas over arbitrary record lists) + differential correspondence check',
+    },
+    "C12": {
+        "text": 'Lean 4 theorems: c12_prune_equiv_partial (for every journal that restores, the pruned journal restores with the same view up to crash counters and queue worker resources), c12_append, c12_wf; the full statement is kept visible and refuted on witnesses for exactly the two recorded findings F12/F25' + CORR,
+        "design_ref": 'DESIGN.md 7/C12',
+        "note": 'trusted: as C10; partial: crash counts of tasks that ran on since-lost workers and queue worker_resources differ after prune (KNOWN_FINDINGS F12, F25); the lift from restorer state to restored Job/TaskSubmit values is not proved; tmp-file + rename is file-system behaviour',
+        "technique": 'Lean 4 proof (per-job/per-queue factorisation of the restorer fold) + differential correspondence check',
+    },
+    "C17": {
+        "text": 'Lean 4 theorems over the auto-allocation model M6 with a fully adversarial batch system and worker query: c17_limits (inductive invariant: queued <= backlog, sum of targets <= max worker count, 1 <= target <= max per allocation), c17_silent, c17_pause, c17_paused_stays, c17_resume_live (full strength since the fix cdd9fd1), c17_permit_order_independent' + CORR,
+        "design_ref": 'DESIGN.md 7/C17',
+        "note": 'trusted: Lean kernel, hand-written model of autoalloc/{process,state}.rs tied by the correspondence through the real handle_message / perform_submits / do_periodic_update with a scripted QueueHandler and mock clock; the scheduler query answer is an arbitrary input',
+        "technique": 'Lean 4 proof (inductive invariant over all event sequences) + differential correspondence check',
+    },
+    "C18": {
+        "text": 'Lean 4 theorems over M6: c18_monotone (rank never decreases, finished absorbing), c18_announce (at most one Started, exactly one Finished per finished allocation, in order), c18_workers (connected set exact, normal finish exactly when distinct lost workers reach the target), c18_unknown, c18_remove_queue' + CORR,
+        "design_ref": 'DESIGN.md 7/C18',
+        "note": 'trusted: as C17; c18_announce over whole runs assumes queue ids come from the counter (never reused; C11)',
+        "technique": 'Lean 4 proof (inductive invariants over all event sequences) + differential correspondence check',
     },
 }
